@@ -72,3 +72,42 @@ Example C05_ex_reader :
          [RNext; RRead 4; RNext; RRead 9; RNext; RRead 2; RRead 2; RNext]
   = [(Some 6%nat, []); (None, [1;2;3;4]); (Some 1%nat, []); (None, [7]); (Some 3%nat, []); (None, [8;9]); (None, [10]); (Some 0%nat, [])].
 Proof. vm_compute. reflexivity. Qed.
+
+(* ---- the writer (Model/PQWriter.v: pq/buffer.go + pq/writer.go; the model's complete buffer state, the queue root and
+   the page images of every flush are compared with the implementation after EVERY Write / Next / Flush call of the
+   campaigns, also the failing ones). For EVERY sequence of Write (any chunking), Next and Flush calls, whatever the
+   flushes do - nothing to flush, success with any page ids, failure before or after the page allocation - and
+   whatever the tail page loaded from the file held: the payload areas of all pages ever filled (released ones and the
+   ones still in the buffer, each page but the last padded to the payload size) hold exactly: what the tail page held,
+   the layout of the completed events (the framing the reader theorems are about), and the frame of the event being
+   written (padding, 4 header bytes, the bytes written so far). A Write that reports an error has appended nothing; an
+   event is complete after Next even when the implicit flush of Next failed. ---- *)
+From VF Require Import PQWriter PQWriterProofs.
+Theorem C05_writer_refines_the_event_stream : forall PS, (hdr_len <= payload PS)%nat ->
+  forall pages tail endId root ops,
+  match tail with Some t => (length (wp_data t) <= payload PS)%nat | None => True end ->
+  let base := match tail with Some t => wp_data t | None => [] end in
+  let '(s, rs) := w_run PS (w_init PS pages tail endId root) ops in
+  let '(done, cur) := spec_run ([], []) ops rs in
+  exists h4, length h4 = hdr_len /\
+    flat (payload PS) (pdata (ws_hist s ++ b_pages (ws_buf s))) = pre_of PS base done ++ h4 ++ cur.
+Proof.
+  intros PS HP pages tail endId root ops Ht. cbn zeta.
+  pose proof (w_run_SI PS HP ops _ _ [] [] (w_init_SI PS HP pages tail endId root Ht)) as H.
+  destruct (w_run PS (w_init PS pages tail endId root) ops) as [s rs].
+  destruct (spec_run ([], []) ops rs) as [done cur].
+  exact (writer_stream PS s _ done cur H).
+Qed.
+Print Assumptions C05_writer_refines_the_event_stream.
+
+(* non-vacuity: pages of 40 bytes (12 bytes payload); two events (5 bytes in two chunks, 9 bytes), a flush in the middle of
+   the second one that fails late, one that succeeds: three pages, the second event crosses a page end *)
+Example C05_ex_writer :
+  let ops := [WWrite [1;2] FFailEarly; WWrite [3;4;5] FFailEarly; WNext FFailEarly; WWrite [6;7;8] FFailEarly;
+              WFlush (FFailLate [7]); WFlush (FOk [7; 9]); WWrite [9;10;11;12;13;14] FFailEarly; WNext FFailEarly] in
+  let '(s, rs) := w_run 40 (w_init 40 5 None 0 {| q_head := None; q_tail := (0, O, 0); q_inuse := 0 |}) ops in
+  spec_run ([], []) ops rs = ([[1;2;3;4;5]; [6;7;8;9;10;11;12;13;14]], []) /\
+  pdata (ws_hist s ++ b_pages (ws_buf s)) =
+    [[5;0;0;0; 1;2;3;4;5]; [9;0;0;0; 6;7;8;9;10;11;12;13]; [14; 0;0;0;0]] /\
+  map wp_id (ws_hist s ++ b_pages (ws_buf s)) = [7; 0; 0].
+Proof. vm_compute. repeat split. Qed.
